@@ -312,22 +312,28 @@ func (a *ownAnalysis) lenLowerBoundKey(fc *FCFG, n ast.Node, stack []ast.Node, k
 	// bound for every element of S; it is inherited by a later range over S (or S[k:]) and by S[i]
 	if !strings.HasPrefix(key, "forall:") {
 		ast.Inspect(a.u.Decl.Body, func(m ast.Node) bool {
-			rs, ok := m.(*ast.RangeStmt)
-			if !ok || rs.End() > n.Pos() || rs.Value == nil || len(rs.Body.List) == 0 {
+			st0, isStmt := m.(ast.Stmt)
+			if !isStmt {
+				return true
+			}
+			seq, elem, lbody, ok := forAllView(info, st0)
+			if !ok || st0.End() > n.Pos() || len(lbody) == 0 {
 				return true
 			}
 			early := false
-			ast.Inspect(rs.Body, func(k ast.Node) bool {
-				if br, ok := k.(*ast.BranchStmt); ok && (br.Tok == token.BREAK || br.Tok == token.GOTO) {
-					early = true
-				}
-				return true
-			})
+			for _, bs := range lbody {
+				ast.Inspect(bs, func(k ast.Node) bool {
+					if br, ok := k.(*ast.BranchStmt); ok && (br.Tok == token.BREAK || br.Tok == token.GOTO) {
+						early = true
+					}
+					return true
+				})
+			}
 			if early {
 				return true
 			}
-			xkey := a.resolvedKey(rs.Value, 0)
-			skey := a.resolvedKey(rs.X, 0)
+			xkey := a.resolvedKey(elem, 0)
+			skey := a.resolvedKey(seq, 0)
 			if xkey == "" || skey == "" {
 				return true
 			}
@@ -350,16 +356,8 @@ func (a *ownAnalysis) lenLowerBoundKey(fc *FCFG, n ast.Node, stack []ast.Node, k
 			if !applies {
 				return true
 			}
-			for _, st := range rs.Body.List {
-				is, ok := st.(*ast.IfStmt)
-				if !ok || is.Else != nil || len(is.Body.List) == 0 {
-					continue
-				}
-				if _, isRet := is.Body.List[len(is.Body.List)-1].(*ast.ReturnStmt); !isRet {
-					continue
-				}
-				sub := a.guardBound(is.Cond, xkey)
-				if sub > lb {
+			for _, cond := range returnGuards(lbody) {
+				if sub := a.guardBound(cond, xkey); sub > lb {
 					lb = sub
 				}
 			}
@@ -1480,4 +1478,103 @@ func init() {
 			}
 			return obs
 		}})
+}
+
+
+// forAllView: a loop over every element of a sequence, as (sequence, element, body) — a
+// `for _, x := range S` or its index spelling `for i := 0; i < len(S); i++ { x := S[i]; … }`.
+func forAllView(info *types.Info, st ast.Stmt) (seq, elem ast.Expr, body []ast.Stmt, ok bool) {
+	switch x := st.(type) {
+	case *ast.RangeStmt:
+		if x.Value == nil {
+			return nil, nil, nil, false
+		}
+		return x.X, x.Value, x.Body.List, true
+	case *ast.ForStmt:
+		init, ok1 := x.Init.(*ast.AssignStmt)
+		cond, ok2 := ast.Unparen(x.Cond).(*ast.BinaryExpr)
+		post, ok3 := x.Post.(*ast.IncDecStmt)
+		if !ok1 || !ok2 || !ok3 || len(init.Lhs) != 1 || len(init.Rhs) != 1 || post.Tok != token.INC || cond.Op != token.LSS || len(x.Body.List) == 0 {
+			return nil, nil, nil, false
+		}
+		idx := identObj(info, init.Lhs[0])
+		if k, isC := intConst(info, init.Rhs[0]); idx == nil || !isC || k != 0 || identObj(info, post.X) != idx || identObj(info, cond.X) != idx {
+			return nil, nil, nil, false
+		}
+		lc, isCall := ast.Unparen(cond.Y).(*ast.CallExpr)
+		if !isCall || len(lc.Args) != 1 {
+			return nil, nil, nil, false
+		}
+		if id, isId := ast.Unparen(lc.Fun).(*ast.Ident); !isId || id.Name != "len" {
+			return nil, nil, nil, false
+		}
+		// x := S[i] as the first statement; the index is not written in the body
+		first, isAs := x.Body.List[0].(*ast.AssignStmt)
+		if !isAs || len(first.Lhs) != 1 || len(first.Rhs) != 1 {
+			return nil, nil, nil, false
+		}
+		ie, isIdx := ast.Unparen(first.Rhs[0]).(*ast.IndexExpr)
+		if !isIdx || identObj(info, ie.Index) != idx || types.ExprString(ie.X) != types.ExprString(lc.Args[0]) {
+			return nil, nil, nil, false
+		}
+		written := false
+		for _, bs := range x.Body.List {
+			ast.Inspect(bs, func(k ast.Node) bool {
+				switch y := k.(type) {
+				case *ast.AssignStmt:
+					for _, l := range y.Lhs {
+						if identObj(info, l) == idx {
+							written = true
+						}
+					}
+				case *ast.IncDecStmt:
+					if identObj(info, y.X) == idx {
+						written = true
+					}
+				}
+				return true
+			})
+		}
+		if written {
+			return nil, nil, nil, false
+		}
+		return lc.Args[0], first.Lhs[0], x.Body.List[1:], true
+	}
+	return nil, nil, nil, false
+}
+
+// returnGuards: the conditions under which a statement list leaves the function at once — `if C { …; return }`
+// without else, and the cases of a tagless `switch { case C: …; return }` (after the switch every case
+// condition whose body returns is false, whichever case was tried first).
+func returnGuards(list []ast.Stmt) []ast.Expr {
+	var out []ast.Expr
+	endsInReturn := func(b []ast.Stmt) bool {
+		if len(b) == 0 {
+			return false
+		}
+		_, isRet := b[len(b)-1].(*ast.ReturnStmt)
+		return isRet
+	}
+	for _, st := range list {
+		switch x := st.(type) {
+		case *ast.IfStmt:
+			if x.Else == nil && endsInReturn(x.Body.List) {
+				out = append(out, x.Cond)
+			}
+		case *ast.SwitchStmt:
+			if x.Tag != nil || x.Init != nil {
+				continue
+			}
+			for _, cl := range x.Body.List {
+				cc := cl.(*ast.CaseClause)
+				if !endsInReturn(cc.Body) {
+					break // a case that stays in the function hides the conditions written after it
+				}
+				if len(cc.List) == 1 {
+					out = append(out, cc.List[0])
+				}
+			}
+		}
+	}
+	return out
 }
